@@ -254,8 +254,10 @@ Proof.
   - pose proof (fixed_len_le _ _ Hv).
     destruct (N.ltb_spec (len pre + len (compose_fields false (s_fields s) v) - len pre) k); [lia|].
     destruct (N.ltb_spec 65535 (len pre + len (compose_fields false (s_fields s) v) - len pre - k)); [lia|].
-    rewrite Hpf. cbn [bind fst snd]. rewrite N.eqb_refl, Hpost. reflexivity.
-  - rewrite Hpf. cbn [bind fst snd]. rewrite N.eqb_refl, Hpost. reflexivity.
+    rewrite Hpf. cbn [bind fst snd]. rewrite N.eqb_refl. unfold post_ok in Hpost.
+    destruct (post_check (s_post s) v); [discriminate|reflexivity].
+  - rewrite Hpf. cbn [bind fst snd]. rewrite N.eqb_refl. unfold post_ok in Hpost.
+    destruct (post_check (s_post s) v); [discriminate|reflexivity].
 Qed.
 
 End Generic.
